@@ -7,32 +7,40 @@ Open Scope Z_scope.
 
 (* ---- the mask ---------------------------------------------------------------- *)
 
-Lemma mask_keys_range : forall m i, In i (mask_keys m) -> 0 <= i < Z.of_nat mask_bits.
+Lemma filter_seq_range : forall (f : nat -> bool) b i,
+  In i (map Z.of_nat (filter f (seq 0 b))) -> 0 <= i < Z.of_nat b.
 Proof.
-  intros m i Hi. unfold mask_keys in Hi. apply in_map_iff in Hi. destruct Hi as (n & E & Hn).
-  apply filter_In in Hn. destruct Hn as [Hn _]. apply in_seq in Hn.
-  generalize dependent mask_bits. intros b Hn. subst i. lia.
+  intros f b i Hi. apply in_map_iff in Hi. destruct Hi as (n & E & Hn).
+  apply filter_In in Hn. destruct Hn as [Hn _]. apply in_seq in Hn. subst i. lia.
+Qed.
+
+Lemma mask_keys_range : forall m i, In i (mask_keys m) -> 0 <= i < Z.of_nat mask_bits.
+Proof. intros m i. exact (filter_seq_range _ mask_bits i). Qed.
+
+Lemma filter_seq_nodup : forall (f : nat -> bool) b, NoDup (map Z.of_nat (filter f (seq 0 b))).
+Proof.
+  intros f b. apply Injective_map_NoDup.
+  - intros x y E. apply Nat2Z.inj. exact E.
+  - apply NoDup_filter. apply seq_NoDup.
 Qed.
 
 Lemma mask_keys_nodup : forall m, NoDup (mask_keys m).
-Proof.
-  intros m. unfold mask_keys. apply Injective_map_NoDup.
-  - intros a b E. apply Nat2Z.inj. exact E.
-  - apply NoDup_filter. apply seq_NoDup.
-Qed.
+Proof. intros m. exact (filter_seq_nodup _ mask_bits). Qed.
+
+#[global] Opaque mask_keys.
 
 Section CosiProofs.
 Variable l : Z.
 Variable enc : Z -> N.
 Variable H : list N -> Z.
 
-Definition mk (c : cosi) : list Z := mask_keys (c_mask c).
+Notation mk c := (mask_keys (c_mask c)).
 
 Lemma cosi_public_key_eq : forall keys c,
   cosi_public_key l keys c =
   if signers_okb l keys (mk c) then Ok (fsum l (map snd (sel_of keys (mk c)))) else Err.
 Proof.
-  intros. unfold cosi_public_key, aggregate_public_key. rewrite collect_signers_eq. fold (mk c).
+  intros. unfold cosi_public_key, aggregate_public_key. rewrite collect_signers_eq.
   destruct (signers_okb l keys (mk c)); reflexivity.
 Qed.
 
@@ -61,7 +69,7 @@ Qed.
 Lemma threshold_rejects : forall keys t m c,
   t <= 0 \/ Z.of_nat (length (mk c)) < t -> full_verify l enc H keys t m c = Err.
 Proof.
-  intros keys t m c Ht. unfold full_verify, threshold_verify. fold (mk c).
+  intros keys t m c Ht. unfold full_verify, threshold_verify.
   destruct (t <=? 0) eqn:E1; [reflexivity|]. apply Z.leb_gt in E1.
   assert (E2 : t <=? Z.of_nat (length (mk c)) = false) by (apply Z.leb_gt; lia).
   rewrite E2. reflexivity.
@@ -83,8 +91,8 @@ Proof.
   - exact EC.
   - intros. unfold full_verify. destruct (t <=? 0); [reflexivity|].
     destruct (negb _); [reflexivity|]. rewrite EA. reflexivity.
-  - intros. unfold verify_response. destruct s; [|reflexivity]. fold (mk c). rewrite E2. reflexivity.
-  - intros. unfold aggregate_response. fold (mk c). rewrite E2. reflexivity.
+  - intros. unfold verify_response. destruct s; [|reflexivity]. rewrite E2. reflexivity.
+  - intros. unfold aggregate_response. rewrite E2. reflexivity.
   - intros. unfold response. rewrite EC. reflexivity.
 Qed.
 
@@ -94,7 +102,7 @@ Lemma missing_or_extra_rejects : forall keys rs m strict c,
   (exists i, In i (mk c) /\ resp_get rs i = None) \/ length rs <> length (mk c) ->
   aggregate_response l enc H keys rs m strict c = Err.
 Proof.
-  intros keys rs m strict c Hbad. unfold aggregate_response. fold (mk c).
+  intros keys rs m strict c Hbad. unfold aggregate_response.
   destruct (negb (all_below _ (mk c))); [reflexivity|].
   destruct (forallb _ (mk c)) eqn:Ef; cbn [negb]; [|reflexivity].
   destruct Hbad as [(i & Hi & Hn) | Hlen].
@@ -120,7 +128,7 @@ Proof.
   assert (Hb : signers_okb l keys (mk c) = true).
   { unfold challenge in Hx. rewrite cosi_public_key_eq in Hx. destruct (signers_okb l keys (mk c)); [reflexivity|discriminate]. }
   pose proof (okb_all_below keys c Hb) as Hall.
-  unfold verify_response. fold (mk c). rewrite Hall. cbn [negb].
+  unfold verify_response. rewrite Hall. cbn [negb].
   destruct (existsb (Z.eqb signer) (mk c)) eqn:Ee; cbn [negb].
   - assert (Hin : In signer (mk c)).
     { apply existsb_exists in Ee. destruct Ee as (y & Hy & E). apply Z.eqb_eq in E. subst. exact Hy. }
@@ -210,6 +218,78 @@ Proof.
     + intros; apply Hv; right; assumption.
     + exists S. split; [exact HS|]. split; [exact HSr|]. rewrite HSe. cbn [map snd sval].
       rewrite zsum_cons, fadd_cg. cg_ring.
+Qed.
+
+Lemma assoc_in_nodup : forall {A} (t : list (Z * A)) i v,
+  NoDup (map fst t) -> In (i, v) t -> assoc t i = Some v.
+Proof.
+  intros A t. induction t as [|[j w] t IH]; intros i v Hnd Hin; [destruct Hin|].
+  cbn [map fst] in Hnd. inversion Hnd as [|? ? Hni Hnd']; subst. cbn [assoc].
+  destruct Hin as [E|Hin].
+  - inversion E; subst. rewrite Z.eqb_refl. reflexivity.
+  - destruct (i =? j) eqn:Eij.
+    + apply Z.eqb_eq in Eij. subst j. exfalso. apply Hni. apply in_map_iff. exists (i, v). split; [reflexivity | exact Hin].
+    + apply IH; assumption.
+Qed.
+
+Definition commit_of (c : cosi) (i : Z) : Z :=
+  match assoc (c_commits c) i with Some r => r | None => 0 end.
+
+(* valid shares from exactly the masked signers, in any map order, aggregate
+   (strictly or not) to a signature that passes full verification *)
+Theorem complete : forall keys rs m strict t c A, 0 < l ->
+  cosi_public_key l keys c = Ok A ->
+  NoDup (map fst rs) -> (forall i, In i (mk c) <-> In i (map fst rs)) ->
+  (forall i so, In (i, so) rs ->
+     exists s, so = Some s /\ share_valid keys c (H (challenge_input enc (c_r c) A m)) i s) ->
+  cg l (c_r c) (zsum (map (commit_of c) (mk c))) ->
+  point_ok l A = true -> point_ok l (c_r c) = true -> 0 < t <= Z.of_nat (length (mk c)) ->
+  exists c', aggregate_response l enc H keys rs m strict c = Ok c' /\
+             full_verify l enc H keys t m c' = Ok tt.
+Proof.
+  intros keys rs m strict t c A Hl HA Hnd Hset Hv HR HpA HpR Ht.
+  set (x := H (challenge_input enc (c_r c) A m)) in *.
+  assert (Hb : signers_okb l keys (mk c) = true).
+  { rewrite cosi_public_key_eq in HA. destruct (signers_okb l keys (mk c)); [reflexivity | discriminate]. }
+  assert (HAe : A = fsum l (map snd (sel_of keys (mk c)))).
+  { rewrite cosi_public_key_eq, Hb in HA. inversion HA. reflexivity. }
+  assert (Hx : challenge l enc H keys m c = Ok x) by (unfold challenge; rewrite HA; reflexivity).
+  pose proof (okb_all_below keys c Hb) as Hall.
+  assert (Hperm : Permutation (mk c) (map fst rs)).
+  { apply NoDup_Permutation; [apply mask_keys_nodup | exact Hnd | exact Hset]. }
+  assert (Hlen : length (mk c) = length rs).
+  { rewrite (Permutation_length Hperm). apply map_length. }
+  destruct (share_loop_complete keys c x strict rs 0 Hl ltac:(lia) Hv) as (S & HS & HSr & HSe).
+  exists (mkCosi (c_r c) S (c_mask c) (c_commits c)). split.
+  - unfold aggregate_response. rewrite Hall. cbn [negb].
+    assert (Hf : forallb (fun i => match resp_get rs i with Some _ => true | None => false end) (mk c) = true).
+    { apply forallb_forall. intros i Hi. apply Hset in Hi. apply in_map_iff in Hi.
+      destruct Hi as ([j so] & Ej & Hin). cbn [fst] in Ej. subst j.
+      destruct (Hv i so Hin) as (s & Es & _). subst so.
+      unfold resp_get. rewrite (assoc_in_nodup rs i (Some s) Hnd Hin). reflexivity. }
+    rewrite Hf. cbn [negb]. rewrite Hlen, Nat.eqb_refl. cbn [negb]. rewrite Hx. cbn [bind].
+    rewrite HS. reflexivity.
+  - unfold full_verify, threshold_verify. cbn [c_mask c_r c_s].
+    assert (E1 : t <=? 0 = false) by (apply Z.leb_gt; lia). rewrite E1.
+    assert (E2 : t <=? Z.of_nat (length (mk c)) = true) by (apply Z.leb_le; lia). rewrite E2. cbn [negb].
+    change (cosi_public_key l keys (mkCosi (c_r c) S (c_mask c) (c_commits c))) with (cosi_public_key l keys c).
+    rewrite HA. cbn [bind]. unfold schnorr_verify. fold x.
+    assert (Ev : verify_with_challenge l A (c_r c) S x = true); [|rewrite Ev; reflexivity].
+    apply verify_with_challenge_iff. apply point_ok_iff in HpA. apply point_ok_iff in HpR.
+    repeat split; try lia.
+    rewrite HSe, Z.add_0_l.
+    rewrite (zsum_map_cg l _ (fun p => commit_of c (fst p) + x * key_at keys (fst p))).
+    2:{ intros [i so] Hin. destruct (Hv i so Hin) as (s & Es & _ & r & k & Hr & Hk & _ & _ & _ & Heq).
+        subst so. cbn [snd fst sval]. unfold commit_of. rewrite Hr.
+        assert (Ek : key_at keys i = k) by (unfold key_at; apply nth_error_nth; exact Hk).
+        rewrite Ek. exact Heq. }
+    rewrite <- (map_map fst (fun i => commit_of c i + x * key_at keys i)).
+    rewrite <- (zsum_perm _ _ (Permutation_map _ Hperm)).
+    rewrite HR, HAe, fsum_cg.
+    replace (map snd (sel_of keys (mk c))) with (map (key_at keys) (mk c))
+      by (unfold sel_of; rewrite map_map; reflexivity).
+    generalize (mk c). intros ks. induction ks as [|i ks IH]; cbn [map]; [rewrite !zsum_nil; cg_ring|].
+    rewrite !zsum_cons, IH. cg_ring.
 Qed.
 
 End CosiProofs.
